@@ -98,7 +98,14 @@ struct WorldP : World {
     for (auto &op : plan->ops.a) {
       std::string o = op.gets("op");
       if (o == "cmd") { std::string line = op.gets("line"); std::string wire = line + (op.getb("lf_only", false) ? "\n" : "\r\n");
-        if (k->sys_write(1, wire.data(), wire.size()) <= 0) break; cmds.push_back(line); sent_cmds++;
+        // full duplex like a TCP peer: keep reading the server's output while a large command is going out, or a pipelined
+        // session deadlocks with both sides blocked in write()
+        { k->sys_fcntl(1, F_SETFL, O_NONBLOCK); size_t off = 0; bool dead = false;
+          while (off < wire.size() && !dead) { ssize_t w = k->sys_write(1, wire.data() + off, wire.size() - off); if (w > 0) { off += (size_t)w; continue; } if (w < 0 && errno != EAGAIN) { dead = true; break; }
+            fd_set rf, wf; FD_ZERO(&rf); FD_ZERO(&wf); FD_SET(0, &rf); FD_SET(1, &wf); struct timeval tv; tv.tv_sec = 5000; tv.tv_usec = 0; int r = k->sys_select(2, &rf, &wf, nullptr, &tv); if (r <= 0) { dead = true; break; }
+            if (FD_ISSET(0, &rf)) { char rb[4096]; ssize_t rn = k->sys_read(0, rb, sizeof rb); if (rn > 0) rx.append(rb, (size_t)rn); else if (rn == 0) dead = true; } }
+          if (dead) break; }
+        cmds.push_back(line); sent_cmds++;
         if (lockstep) { if (!wait_replies(cmds.size() + 1)) break; }
         for (auto &m : mua) if (m.first == cmds.size()) do_mua(m.second);
       }
